@@ -201,6 +201,28 @@ class Rule_CV06(BaseRule):
         # and the preceding code/comment segment.
         # Don't mess with comment spacing/placement.
         whitespace_deletions = before_segment.select(loop_while=sp.is_whitespace())
+        # ...but if that whitespace follows an inline comment, then the newline
+        # in it is what terminates the comment. Deleting it would pull whatever
+        # comes after the semi-colon on to the end of the comment.
+        # (That only matters if there *is* something after the semi-colon on
+        # its line.)
+        preceding = before_segment[len(whitespace_deletions) :]
+        raw_stack = parent_segment.raw_segments
+        following = raw_stack[raw_stack.index(target_segment) + 1 :]
+        next_on_line = next(
+            (s for s in following if not s.is_meta and not s.is_type("whitespace")),
+            None,
+        )
+        if (
+            preceding
+            and preceding[0].is_comment
+            and not preceding[0].is_type("block_comment")
+            and next_on_line is not None
+            and not next_on_line.is_type("newline")
+        ):
+            whitespace_deletions = whitespace_deletions.select(
+                sp.not_(sp.is_type("newline"))
+            )
         return SegmentMoveContext(
             anchor_segment, is_one_line, before_segment, whitespace_deletions
         )
